@@ -7,6 +7,7 @@ import (
 	"fmt"
 	"runtime"
 	"sync"
+	"sync/atomic"
 	"time"
 
 	"go.opentelemetry.io/collector/component"
@@ -48,6 +49,12 @@ type c18Cfg struct {
 	// SlowReads: some memory readings take a while (the checker's goroutine parks inside the reading); start, consume
 	// and shutdown calls - also with a context that is already done - arrive while a check is in progress
 	SlowReads bool `json:"slow_readings,omitempty"`
+	// SlowGC (only in builds with the instrumentation overlay): a forced collection takes half a second of virtual time,
+	// and the minimum GC intervals are a multiple of the check interval minus 200 ms, so that some check falls between
+	// "interval since the previous collection STARTED" and "interval since it was DONE"
+	SlowGC   bool `json:"slow_forced_collections,omitempty"`
+	SoftGCms int  `json:"min_gc_interval_when_soft_limited_ms,omitempty"`
+	HardGCms int  `json:"min_gc_interval_when_hard_limited_ms,omitempty"`
 }
 
 type memScript struct {
@@ -164,6 +171,13 @@ func runC18(r *simkit.Run) {
 		pctSpike = 0
 	}
 	cfg.SlowReads = tp.Chance(1, 4)
+	if lockInstrumented && !cfg.SlowReads && !(cfg.Ext && cfg.Sharers == 1) && tp.Chance(1, 4) {
+		cfg.SlowGC = true
+		mS := tp.Range(1, 3)
+		mH := tp.Range(1, mS)
+		cfg.SoftGCms = mS*cfg.CheckS*1000 - 200
+		cfg.HardGCms = mH*cfg.CheckS*1000 - 200
+	}
 	r.Sample = cfg
 	r.Logf("config %+v", cfg)
 	begin := time.Now()
@@ -175,9 +189,28 @@ func runC18(r *simkit.Run) {
 
 	limit := uint64(cfg.LimitMiB) * mib
 	spike := uint64(cfg.SpikeMiB) * mib
+	softMin, hardMin := time.Duration(cfg.SoftGCs)*time.Second, time.Duration(cfg.HardGCs)*time.Second
+	const gcDur = 500 * time.Millisecond
+	var gcBusy atomic.Bool
+	if cfg.SlowGC {
+		softMin, hardMin = time.Duration(cfg.SoftGCms)*time.Millisecond, time.Duration(cfg.HardGCms)*time.Millisecond
+		setBeforeGC(func() {
+			gcBusy.Store(true)
+			time.Sleep(gcDur)
+			gcBusy.Store(false)
+		})
+		defer setBeforeGC(nil)
+		r.Count("fault.slow_forced_collections")
+	}
+	// a step that moves the clock ends only when a collection that began in it is over
+	waitGC := func() {
+		for i := 0; gcBusy.Load() && i < 100; i++ {
+			time.Sleep(50 * time.Millisecond)
+		}
+	}
 	mk := func() *memorylimiter.Config {
 		c := &memorylimiter.Config{CheckInterval: time.Duration(cfg.CheckS) * time.Second,
-			MinGCIntervalWhenSoftLimited: time.Duration(cfg.SoftGCs) * time.Second, MinGCIntervalWhenHardLimited: time.Duration(cfg.HardGCs) * time.Second}
+			MinGCIntervalWhenSoftLimited: softMin, MinGCIntervalWhenHardLimited: hardMin}
 		if cfg.Percent {
 			c.MemoryLimitPercentage = pctLimit
 			c.MemorySpikePercentage = pctSpike
@@ -310,15 +343,17 @@ func runC18(r *simkit.Run) {
 			if i < len(taken) {
 				gc = true
 			}
-			minInt := time.Duration(cfg.SoftGCs) * time.Second
+			minInt := softMin
 			sev := "soft"
 			if hard {
-				minInt = time.Duration(cfg.HardGCs) * time.Second
+				minInt = hardMin
 				sev = "hard"
 			}
 			measurement := first
+			gcEnd := at
 			if gc {
 				measurement = taken[i]
+				gcEnd = script.lastAt[i] // the reading after the collection is taken the instant it is done
 				i++
 				r.Count("probe.forced_gc")
 				if !above {
@@ -327,7 +362,7 @@ func runC18(r *simkit.Run) {
 				if gcKnown && at.Sub(lastGC) < minInt {
 					r.Failf("gc", "interval-not-elapsed/"+sev, "%s: a collection was forced %s after the previous one; minimum interval for %s severity is %s", when, at.Sub(lastGC), sev, minInt)
 				}
-				lastGC = at
+				lastGC = gcEnd
 				gcKnown = true
 			} else if above && gcKnown && at.Sub(lastGC) > minInt {
 				r.Failf("gc", "due-but-not-forced/"+sev, "%s: usage %d MiB is above the soft limit, %s have passed since the last forced collection (minimum %s) but none was forced", when, first/mib, at.Sub(lastGC), minInt)
@@ -475,16 +510,24 @@ func runC18(r *simkit.Run) {
 				script.set(first, after)
 				r.Logf("  next reading %d MiB, after a GC %d MiB (soft %d, hard %d)", first/mib, after/mib, soft/mib, limit/mib)
 				time.Sleep(interval)
+				waitGC()
 			}})
 			ch = append(ch, simkit.Choice{Name: "advance:fraction", W: 1, Fire: func() {
 				first := classes[tp.Draw(len(classes))]
 				script.set(first, first)
 				time.Sleep(interval / 3)
+				waitGC()
 			}})
 		}
 		wasRunning := running
 		before := time.Now()
 		ev := r.Pick(ch)
+		if cfg.SlowGC {
+			// a check can begin in any step (a tick left over from before the first Start): the step ends when its
+			// collection is over
+			waitGC()
+			r.Settle()
+		}
 		if pending != nil {
 			shutMu.Lock()
 			done, err := pending.done, pending.err
@@ -593,5 +636,5 @@ var HarnessC18 = simkit.Harness{
 	Prop: "C18", Name: "svc/c18", Run: runC18, StepTimeout: 20e9,
 	Real: []string{"internal/memorylimiter.MemoryLimiter (ticker goroutine, CheckMemLimits, reference-counted Start/Shutdown, real runtime.GC)", "memorylimiterprocessor factory (one limiter shared by processors of several signals) on top of processorhelper", "memorylimiterextension"},
 	Stub: []string{"memory readings (ReadMemStatsFn / GetMemoryFn package variables) scripted per check: first reading and reading after a forced GC", "downstream sinks (ok / error)"},
-	Rule: "one run = one tape-drawn configuration accepted by Validate() (check interval, soft/hard minimum GC intervals, fixed or percentage limits, spike limit), 1-3 processors sharing one limiter (or the extension; after the last one has shut down optionally a second generation of processors built by the same factory from a new, equal configuration object), and a schedule of start / shutdown of individual sharers, virtual-clock advances by the check interval or a third of it with a tape-chosen reading class (below soft, soft-1, soft, soft+1, between, hard-1, hard, hard+1, far above) and after-GC reading, and consume calls with accepting or failing downstream; in 1 run in 4 some memory readings are slow (the checker's goroutine parks inside the reading until a release event; starts, consume calls and Shutdowns - 1 in 3 with a context that is already done, the last user's as a task of its own - arrive while that check is in progress; once the last user's Shutdown has returned no reading may be taken or finished); a forced GC is observed as the second reading consumed by one check; distinct = distinct event-log hash; non-trivial = at least one check ran",
+	Rule: "one run = one tape-drawn configuration accepted by Validate() (check interval, soft/hard minimum GC intervals, fixed or percentage limits, spike limit), 1-3 processors sharing one limiter (or the extension; after the last one has shut down optionally a second generation of processors built by the same factory from a new, equal configuration object), and a schedule of start / shutdown of individual sharers, virtual-clock advances by the check interval or a third of it with a tape-chosen reading class (below soft, soft-1, soft, soft+1, between, hard-1, hard, hard+1, far above) and after-GC reading, and consume calls with accepting or failing downstream; in 1 run in 4 some memory readings are slow (the checker's goroutine parks inside the reading until a release event; starts, consume calls and Shutdowns - 1 in 3 with a context that is already done, the last user's as a task of its own - arrive while that check is in progress; once the last user's Shutdown has returned no reading may be taken or finished); in builds with the instrumentation overlay 1 run in 4 has slow forced collections (half a second of virtual time each, minimum GC intervals of a multiple of the check interval minus 200 ms, intervals measured from the end of a collection); a forced GC is observed as the second reading consumed by one check; distinct = distinct event-log hash; non-trivial = at least one check ran",
 }
